@@ -8,7 +8,7 @@ VERIF = os.path.dirname(os.path.dirname(os.path.abspath(__file__)))
 CHECKS = {
     "C01": dict(
         technique="explicit-state BFS to closure over operation histories on the real Model, per generated graph program; reference evaluator + staleness monitor as oracle",
-        text="Every history (any length) over {assign, auto-update toggle, update(), update(targets), save, restore, set_seed} is covered per program because the search runs to closure of the canonical state space; programs are all G-cache graphs up to the tier's size. The oracle (from-scratch evaluator, dirty-bit monitor, call counters) runs on every transition of the real object.",
+        text="Every history (any length) over {assign, auto-update toggle, update(), update(targets), save, restore, set_seed} is covered per program because the search runs to closure of the canonical state space; programs are all G-cache graphs up to the tier's size. The oracle (from-scratch evaluator, dirty-bit monitor, call counters) runs on every transition of the real object. Node.clear_state() is part of the operation alphabet for the extra programs.",
         note="Assumes pure node functions; values over a 2-letter input alphabet (interned, injective); restore pairs are strided over current states when a program has more than 48 reachable states (reported as a cap).",
         ref="3/C01",
     ),
@@ -20,25 +20,25 @@ CHECKS = {
     ),
     "C12": dict(
         technique="exhaustive product of key permutations x shapes x diag/dense x history layouts on kernel.tune(), plus a product of real Engine runs; numpy float64 reference in ravel_pytree order",
-        text="kernel.tune() of NUTS and HMC is executed for every permutation of 2-3 position keys, leaf shape assignment, diagonal/dense mode, history-dict layout (listed, sorted, reversed, with a foreign key) and SLOW/FAST epoch on synthetic histories with pairwise distinct variances and non-zero covariances (also far from zero relative to their spread); real Engine runs (store_kernel_states) cover key orders x kernels x diag/dense x co-kernel (none, RW without history, second HMC) x slow epochs (one, two identical, two different) x warm-up thinning. After every slow epoch the stored inverse mass matrix must equal the regularised variance/covariance of that epoch's stored history of the kernel's own keys in ravel_pytree order.",
+        text="kernel.tune() of NUTS and HMC is executed for every permutation of 2-3 position keys, leaf shape assignment, diagonal/dense mode, history-dict layout (listed, sorted, reversed, with a foreign key) and SLOW/FAST epoch on synthetic histories with pairwise distinct variances and non-zero covariances (also far from zero relative to their spread); real Engine runs (store_kernel_states) cover key orders x kernels x diag/dense x co-kernel (none, RW without history, second HMC) x slow epochs (one, two identical, two different) x warm-up thinning. After every slow epoch the stored inverse mass matrix must equal the regularised variance/covariance of that epoch's stored history of the kernel's own keys in ravel_pytree order. Added after round 3: single-key kernels, histories with non-finite foreign entries, the identical EpochConfig object used for two consecutive slow epochs; the recorded epochs and per-epoch lengths must equal the requested schedule before the per-epoch oracle runs.",
         note="jax.flatten_util.ravel_pytree defines 'flat coordinate i'; tolerance 1e-4 + 2e-4|ref|; quick runs a covering subset of the engine product (thorough: full product, 288 engines).",
         ref="3/C12",
     ),
     "C15": dict(
         technique="exhaustive enumeration of graph programs x build variants x round-trip operation sequences (depth-bounded) on real models with a never-round-tripped twin as differential oracle; enumerated invalid graphs",
-        text="For every G-cache program (<=3 items quick, <=4 thorough, plus extras with groups, seeded and unnamed nodes) the model is built in six ways (all objects, sinks only, reversed, twice, copy=True, Model(grow=True), repeated copy build) and checked for completeness, unique names, outputs = inverse of inputs, reference edges and topological evaluation order; 17 invalid graphs (duplicate names, reserved names, node cycles, simulation cycles, shared nodes) must be rejected without harming an existing model. All operation sequences up to the tier's depth over {assign, auto-update off, pop+rebuild, copy+rebuild, deepcopy, save/load, every structural mutator on every node/var, set_seed} run on the real model next to a twin that never round-trips; states must agree after every step, copied-from originals must stay untouched and share no objects, every mutator must raise and change nothing.",
+        text="For every G-cache program (<=3 items quick, <=4 thorough, plus extras with groups, seeded and unnamed nodes) the model is built in six ways (all objects, sinks only, reversed, twice, copy=True, Model(grow=True), repeated copy build) and checked for completeness, unique names, outputs = inverse of inputs, reference edges and topological evaluation order; 17 invalid graphs (duplicate names, reserved names, node cycles, simulation cycles, shared nodes) must be rejected without harming an existing model. All operation sequences up to the tier's depth over {assign, auto-update off, pop+rebuild, copy+rebuild, deepcopy, save/load, every structural mutator on every node/var, set_seed} run on the real model next to a twin that never round-trips; states must agree after every step, copied-from originals must stay untouched and share no objects, every mutator must raise and change nothing. Added after round 3: node-set equality after every round trip, evaluation-order oracle for update(target) of every node, names containing '_model', keyword paths between variables.",
         note="Depth 3 (quick: 2 for 3-item programs); values content-based so they compare across copies; group membership/role/info are not counted as structure.",
         ref="3/C15",
     ),
     "C16": dict(
         technique="exhaustive product enumeration of schedules / argument tuples / append-next words on the real EpochManager, stan_epochs and EngineBuilder; plain-Python validity predicate and closed-form window arithmetic as oracle",
-        text="Every sequence of epoch configs over types x durations 0..4 x thinnings 0..3 (length <=3 complete, length 4 with the valid initial epoch first; thorough: wider domain, length 5) is given to the real EpochManager through the constructor and through incremental append (rejected appends kept in the history) and compared with the validity predicate; every accepted manager and every {append, next} interleaving of every valid schedule is checked against consecutive indices and prefix-sum start times. stan_epochs runs on the full product of its argument grid (6.6M tuples quick) against the documented raise conditions and the closed-form fast / doubling-slow / fast / posterior pattern. EngineBuilder chunk length is checked on ~8k builds, a few engines sampled to the end.",
+        text="Every sequence of epoch configs over types x durations 0..4 x thinnings 0..3 (length <=3 complete, length 4 with the valid initial epoch first; thorough: wider domain, length 5) is given to the real EpochManager through the constructor and through incremental append (rejected appends kept in the history) and compared with the validity predicate; every accepted manager and every {append, next} interleaving of every valid schedule is checked against consecutive indices and prefix-sum start times. stan_epochs runs on the full product of its argument grid (6.6M tuples quick) against the documented raise conditions and the closed-form fast / doubling-slow / fast / posterior pattern. EngineBuilder chunk length is checked on ~8k builds, a few engines sampled to the end. Added after round 3: after every {append, next} word every config that would make the schedule invalid is offered and must be refused; builder schedules / set_duration calls whose warm-up thinning does not divide the durations; a history unit with every word <=4 (thorough 5) over {stan_epochs call with one of three argument tuples, in-place mutation of the last returned list}.",
         note="Empty schedule and base_duration <= 0 (non-terminating) are outside the admissible domain; 'divides every duration' means every epoch after the initial one; a chunk that divides but is not the gcd is not a violation.",
         ref="3/C16",
     ),
     "C17": dict(
         technique="exhaustive product of hierarchy structures x skip sets x naming styles x auto-update x stale/fresh state x shapes x seeds on the real Model.simulate; Deterministic children make 'which ancestor value was seen' an exact equality",
-        text="Chains of depth 2 and 3 (and a diamond) where each edge is one of six ways a child can depend on its parent (direct, cached Calc, TransientCalc, weak Var, two chained Calcs, keyword input), value shapes ()/(3,)/(2,3) with scalar and vector parents, every subset of variables skipped (named by variable, dist node or value proxy), auto-update on/off, model fresh or stale beforehand, several seeds. Oracle per execution: recording distributions give the parameters each draw was initialised with, which must equal the reference evaluation at the NEW ancestor values; shapes preserved; skipped variables bit-identical; same seed => same result in a fresh model and under both auto-update settings; after update() the model is coherent (no outdated node, calcs = f(inputs), log_prob recomputed).",
+        text="Chains of depth 2 and 3 (and a diamond) where each edge is one of six ways a child can depend on its parent (direct, cached Calc, TransientCalc, weak Var, two chained Calcs, keyword input), value shapes ()/(3,)/(2,3) with scalar and vector parents, every subset of variables skipped (named by variable, dist node or value proxy), auto-update on/off, model fresh or stale beforehand, several seeds. Oracle per execution: recording distributions give the parameters each draw was initialised with, which must equal the reference evaluation at the NEW ancestor values; shapes preserved; skipped variables bit-identical; same seed => same result in a fresh model and under both auto-update settings; after update() the model is coherent (no outdated node, calcs = f(inputs), log_prob recomputed). Added after round 3: the identical construction code run 6 times in one process (plus a deep copy) with 3 and 6 independent parameters under a common child: all copies simulated with the same seed / skip set end with identical values.",
         note="TFP's Normal/Deterministic samplers trusted; link functions exact in float32; distribution nodes without a variable are never simulated (documented) and are outside the space.",
         ref="3/C17",
     ),
@@ -56,7 +56,7 @@ CHECKS = {
     ),
     "C04": dict(
         technique="exact reconstruction of the transition law by enumerating every environment answer (scripted PRNG) of the real kernels: full stochastic matrices for finite chains, detailed balance with the reconstructed Gaussian proposal law, leapfrog-trajectory conformance for HMC/NUTS",
-        text="(a) finite chains end to end: for 7 kernel sequences (finite-discrete Gibbs, MH with asymmetric discrete proposals, user Gibbs; Liesel and dict models; every order) the full stochastic matrix of KernelSequence.transition is rebuilt from every joint state x epoch x every categorical/accept answer and pi P = pi, stochastic rows and epoch-homogeneity are checked; the premises of the reconstruction (no PRNG key used twice, kernel state unchanged) are checked on every execution. (b) RW/IWLS/MH on continuous blocks (dict and Liesel models incl. a bare Value parameter and a parameter transformed with Var.transform(tfb.Exp()); scalar/vector/two-key blocks, log-scale parameter with state-dependent information): scripted normals recover the actual affine proposal map at x and x', the reverse draw is scripted, and pi(x)q(x'|x)a(x->x') = pi(x')q(x|x')a(x'->x) plus 'moves iff u < a' are checked. (c) HMC/NUTS under a recording model interface: every density evaluation point must follow the Stoermer-Verlet recurrence of the float64 reference density with the kernel's step size and inverse mass matrix (identity / non-uniform diagonal / dense, keys in non-alphabetical order), initial momentum ~ N(0, M), HMC acceptance = min(1, exp(H0-HL)), move iff u < a, exact write-back.",
+        text="(a) finite chains end to end: for 7 kernel sequences (finite-discrete Gibbs, MH with asymmetric discrete proposals, user Gibbs; Liesel and dict models; every order) the full stochastic matrix of KernelSequence.transition is rebuilt from every joint state x epoch x every categorical/accept answer and pi P = pi, stochastic rows and epoch-homogeneity are checked; the premises of the reconstruction (no PRNG key used twice, kernel state unchanged) are checked on every execution. (b) RW/IWLS/MH on continuous blocks (dict and Liesel models incl. a bare Value parameter and a parameter transformed with Var.transform(tfb.Exp()); scalar/vector/two-key blocks, log-scale parameter with state-dependent information): scripted normals recover the actual affine proposal map at x and x', the reverse draw is scripted, and pi(x)q(x'|x)a(x->x') = pi(x')q(x|x')a(x'->x) plus 'moves iff u < a' are checked. (c) HMC/NUTS under a recording model interface: every density evaluation point must follow the Stoermer-Verlet recurrence of the float64 reference density with the kernel's step size and inverse mass matrix (identity / non-uniform diagonal / dense, keys in non-alphabetical order), initial momentum ~ N(0, M), HMC acceptance = min(1, exp(H0-HL)), move iff u < a, exact write-back. Models: dict, Liesel, Liesel with Var.transform(tfb.Exp()), with a class bijector whose argument is a variable, and with the default (auto) transformation of a Gamma parameter; a finite model in which the discrete variable selects another parameter's prior scale.",
         note="One-step invariance of a homogeneous law gives invariance after any number of transitions; HMC invariance follows from conformance to the reversible volume-preserving integrator + MH step (standard theorem); NUTS tree building / selection (blackjax) is the trusted base; composition over continuous blocks relies on C09's premises. Lattice points only; tolerances 2e-5 on probabilities, 3e-3 on log detailed-balance ratios.",
         ref="3/C04",
     ),
@@ -68,7 +68,7 @@ CHECKS = {
     ),
     "C09": dict(
         technique="stateless enumeration of accept/reject/categorical answers (deviation-bounded) of real KernelSequence transitions with logging proxies, plus a monitor over every stored iteration of real Engine runs; float64 recomputation oracle",
-        text="KernelSequence.transition runs eagerly on a Liesel regression model (derived nodes sigma, eta, per-variable and model log-probs, discrete indicator) and on a dict model with 2-3 real kernels (RW, IWLS, HMC, NUTS, MH, finite-discrete Gibbs) over disjoint blocks in every order; all combinations of accept/reject/categorical answers for one iteration and <=1 (thorough 2) non-default answers for two iterations; also with the user's model in auto_update=False. At every kernel boundary: input = predecessor's output, only the kernel's block and its graph descendants change, every derived node and model log-prob equals the float64 recomputation from the stored parameters, no outdated node, rejection returns the input state exactly, the sequence returns the last kernel's state in the configured order. Engine level: real runs (4 chains, chunk sizes 1/5/10) tracking all parameters and derived nodes; same recomputation on every stored iteration.",
+        text="KernelSequence.transition runs eagerly on a Liesel regression model (derived nodes sigma, eta, per-variable and model log-probs, discrete indicator) and on a dict model with 2-3 real kernels (RW, IWLS, HMC, NUTS, MH, finite-discrete Gibbs) over disjoint blocks in every order; all combinations of accept/reject/categorical answers for one iteration and <=1 (thorough 2) non-default answers for two iterations; also with the user's model in auto_update=False. At every kernel boundary: input = predecessor's output, only the kernel's block and its graph descendants change, every derived node and model log-prob equals the float64 recomputation from the stored parameters, no outdated node, rejection returns the input state exactly, the sequence returns the last kernel's state in the configured order. Engine level: real runs (4 chains, chunk sizes 1/5/10) tracking all parameters and derived nodes; same recomputation on every stored iteration. Added after round 3: the built-in distreg tau2 Gibbs kernel on a real DistRegBuilder model over a 16 x 16 lattice {state variant} x {model-object variant} of (a, b, beta, K): the draw equals the full conditional of the model state handed over.",
         note="Gaussian draws fixed by a deterministic rule; only accept/reject/categorical/direction answers enumerated; NUTS reports position_moved=99 so its rejection identity is not checked; tolerance 2e-4 (float32).",
         ref="3/C09",
     ),
@@ -110,7 +110,7 @@ CHECKS = {
     ),
     "C08": dict(
         technique="exhaustive configuration product on the real Engine and chain classes with value-encoded deterministic kernels; reference chain as oracle and differential comparison across chunkings",
-        text="Deterministic key-ignoring kernels write values that encode key, element, chain, epoch and iteration; positions, posterior positions, transition infos, kernel states and generated quantities are compared element by element with the reference over all valid schedules up to 2 (thorough 3) epochs x durations x thinnings x every chunk (constructor and builder), tracked-key selections (every position_keys subset and included/excluded pair, incl. excluded keys of a kernel that needs its history) x 3 leaf-shape assignments x flags (store_kernel_states, quantity generator, minimize) x 1-3 chains; results must be identical across chunk sizes. ListEpochChain and EpochChainManager are also checked alone over all compositions of every duration <= 8 (thorough 10) with every thinning and all epoch sequences of length <= 3.",
+        text="Deterministic key-ignoring kernels write values that encode key, element, chain, epoch and iteration; positions, posterior positions, transition infos, kernel states and generated quantities are compared element by element with the reference over all valid schedules up to 2 (thorough 3) epochs x durations x thinnings x every chunk (constructor and builder), tracked-key selections (every position_keys subset and included/excluded pair, incl. excluded keys of a kernel that needs its history) x 3 leaf-shape assignments x flags (store_kernel_states, quantity generator, minimize) x 1-3 chains; results must be identical across chunk sizes. ListEpochChain and EpochChainManager are also checked alone over all compositions of every duration <= 8 (thorough 10) with every thinning and all epoch sequences of length <= 3. Added after round 3: EngineBuilder.set_duration over a (thinning_posterior, thinning_warmup) grid with the C16 reference schedule as expectation, and one results object asked again after every further appended-and-sampled epoch (it shares the engine's live chains).",
         note="Values use the engine's epoch clock, validated by the C07 oracle in the same run; DictInterface trusted; posterior accessors only called when a posterior epoch exists; selection/flags/shape products use 2-3 fixed schedules.",
         ref="3/C08",
     ),
